@@ -100,7 +100,12 @@ func doReplay(c *Ctx) int {
 	return 1
 }
 
-func workerMain(args []string) int { return 0 }
+func workerMain(args []string) int {
+	if len(args) >= 6 && args[0] == "C12" {
+		return c12Worker(args[1:])
+	}
+	return 2
+}
 
 func init() {
 	checks["SELFTEST"] = func(c *Ctx) {}
